@@ -4,6 +4,7 @@ import Driver.Gen
 import Driver.Session
 import Driver.Exec
 import Driver.Value
+import Driver.Extra
 open Btcdeb
 
 namespace Driver
@@ -118,6 +119,10 @@ def dispatch (spec : Bool) (line : String) : String :=
   | "SESSION" :: a => cmdSession spec false a
   | "SESSIONV" :: a => cmdSession spec true a
   | [""] => ""
+  | w :: a =>
+    match extraCmds.find? (fun p => p.1 == w) with
+    | some (_, f) => f spec a
+    | none => "bad-op"
   | _ => "bad-op"
 
 partial def loop (spec : Bool) (h : IO.FS.Stream) (out : IO.FS.Stream) : IO Unit := do
